@@ -193,6 +193,36 @@ impl Check for C11 {
             decoys: rng.chance(2, 3),
         };
         let mut world = gen::split_tree(rng, entries, crlf, &tcfg);
+        // a file of (idempotent) declarations included from two places: the same file may be
+        // loaded twice without being a cycle, and its entries are delivered twice
+        if world.files.len() >= 2 && rng.chance(1, 5) {
+            let mut common = FileSpec::new("/w/common/decl.ledger");
+            common.push(Entry::Comment(vec!["; shared declarations".to_string()]));
+            common.push(Entry::Commodity {
+                name: "ZZZ".to_string(),
+                aliases: vec![],
+                format: None,
+            });
+            let n_files = world.files.len();
+            let a = rng.usize(n_files);
+            let mut b = rng.usize(n_files - 1);
+            if b >= a {
+                b += 1;
+            }
+            for fi in [a, b] {
+                let depth = dirname(&world.files[fi].path).matches('/').count() - 1;
+                let rel = format!("{}common/decl.ledger", "../".repeat(depth));
+                let at = rng.usize(world.files[fi].items.len() + 1);
+                world.files[fi].items.insert(
+                    at,
+                    Item {
+                        blank: 1,
+                        entry: Entry::Include(rel),
+                    },
+                );
+            }
+            world.files.push(common);
+        }
         // an include that matches nothing (or only a dot-file)
         if rng.chance(1, 8) {
             let fi = rng.usize(world.files.len());
@@ -472,6 +502,9 @@ impl Check for C11 {
         out.nontrivial = sc.world.files.len() >= 2 && (multi_glob || kinds.contains("parent-dir") || sc.world.files.len() >= 3);
         if !want_ok {
             out.count("probe.include-matching-nothing");
+        }
+        if sc.world.files.iter().any(|f| f.path == "/w/common/decl.ledger") {
+            out.count("probe.file-included-from-two-places");
         }
         if sc.world.extra.keys().any(|k| k.rsplit('/').next().map(|n| n.starts_with(".part")).unwrap_or(false)) {
             out.count("probe.dotfile-next-to-glob-matches");
